@@ -164,6 +164,18 @@ impl T {
             t => t.clone(),
         }
     }
+    /// Rebuild the term, mapping every leaf (anything that is not a cons cell or a compound).
+    pub fn map_leaves(&self, f: &mut dyn FnMut(&T) -> T) -> T {
+        match self {
+            T::Cons(h, t) => {
+                let h2 = h.map_leaves(f);
+                let t2 = t.map_leaves(f);
+                T::cons(h2, t2)
+            }
+            T::Comp(n, fs) => T::Comp(n, fs.iter().map(|x| x.map_leaves(f)).collect()),
+            t => f(t),
+        }
+    }
     pub fn subst(&self, m: &BTreeMap<V, T>) -> T {
         self.map_vars(&|v| m.get(&v).cloned().unwrap_or(T::Var(v)))
     }
